@@ -17,6 +17,7 @@ package main
 // Skipped (recorded as inconclusive) when no dbus-daemon binary is found.
 
 import (
+	"errors"
 	"fmt"
 	"io/ioutil"
 	"net"
@@ -39,6 +40,8 @@ type busLog struct {
 	adds      []string // event types
 	queues    int
 	queueBody []string
+	// bad-thermal-frame events offered / refused by the fake event service
+	badAddCalls, failedAdds int
 }
 
 type fakeLeptond struct{ l *busLog }
@@ -61,8 +64,17 @@ type fakeEvents struct{ l *busLog }
 
 func (f fakeEvents) Add(details string, typ string, ts int64) *dbus.Error {
 	f.l.mu.Lock()
+	defer f.l.mu.Unlock()
+	if typ == "bad-thermal-frame" {
+		f.l.badAddCalls++
+		if f.l.badAddCalls == 2 {
+			// the event store is unavailable for the second bad frame; the camera daemon is
+			// still reachable and must still be asked to restart the camera
+			f.l.failedAdds++
+			return dbus.MakeFailedError(errors.New("verif: event store unavailable"))
+		}
+	}
 	f.l.adds = append(f.l.adds, typ)
-	f.l.mu.Unlock()
 	return nil
 }
 func (f fakeEvents) Queue(details []byte, ts int64) *dbus.Error {
@@ -305,6 +317,7 @@ func TestVerif_Daemon(t *testing.T) {
 		waitFor(func() bool { r.log.mu.Lock(); defer r.log.mu.Unlock(); return r.log.restarts >= nbad }, 5*time.Second)
 		r.log.mu.Lock()
 		restarts, adds, queues := r.log.restarts, append([]string{}, r.log.adds...), r.log.queues
+		failedAdds := r.log.failedAdds
 		r.log.mu.Unlock()
 		badEvents := 0
 		for _, a := range adds {
@@ -315,9 +328,10 @@ func TestVerif_Daemon(t *testing.T) {
 		if restarts != nbad {
 			c.ViolationP("C13", "camera-restart-requests", "daemon tier", fmt.Sprintf("%d bad frames sent, %d RestartCamera calls observed on the bus", nbad, restarts))
 		}
-		if badEvents != nbad {
-			c.ViolationP("C13", "bad-frame-events", "daemon tier", fmt.Sprintf("%d bad frames sent, %d bad-thermal-frame events observed on the bus", nbad, badEvents))
+		if badEvents+failedAdds != nbad {
+			c.ViolationP("C13", "bad-frame-events", "daemon tier", fmt.Sprintf("%d bad frames sent, %d bad-thermal-frame events observed on the bus (%d more refused by the event service)", nbad, badEvents, failedAdds))
 		}
+		c.Count("daemon_bad_frame_events_refused", int64(failedAdds))
 		c.Count("daemon_bad_frames", int64(nbad))
 		c.Count("daemon_restart_calls", int64(restarts))
 		// throttling: bucket 4 s = 36 frames, 120 motion frames, refill 1 h => at least one throttle event, never one per frame
